@@ -283,6 +283,19 @@ theorem C09_in_flight {cfg : Cfg} {ctr : Int} {ts : TState} (hr : TReachable cfg
     · have := h2 (by simpa using hb); omega
   · intro h hw; simp only [B, h] at hB; exact hB hw
 
+/-- **C09_establishment_bounded.**  What `C09_bound` assumes about connection establishment, for every
+    transport kind: in the timed model a caller that holds the dial lock is in `dial` for at most
+    `DialTimeout` (the clock may not advance past `lockAt + DialTimeout` while it dials: `tickOk`), i.e.
+    `net.DialTimeout` for tcp/udp endpoints and `tls.DialWithDialer` with `Dialer.Timeout` for ssl
+    endpoints return within `DialTimeout` — TLS handshake included.  The second part is re-extracted from
+    `connection.ReConnect` (`Consts.callSslDialBounded`: the ssl dial goes through a dialer that carries the
+    timeout, or sets a deadline before a hand-run handshake); the first is the model's own invariant. -/
+theorem C09_establishment_bounded {cfg : Cfg} {ctr : Int} {ts : TState} (hr : TReachable cfg ctr ts)
+    {i : Nat} {c : Call} {t : Times} (hc : ts.base.calls[i]? = some c) (ht : ts.times[i]? = some t)
+    (hd : c.pc = .dial) :
+    Consts.callSslDialBounded = 1 ∧ ts.now ≤ t.lockAt + cfg.dialTimeout :=
+  ⟨by decide, (C09_in_flight hr hc ht).1 hd⟩
+
 /-- No time-lock: in every reachable state either the clock can advance or some caller goroutine can
     take a step — the bounds above are not vacuous. -/
 theorem C09_no_timelock {cfg : Cfg} {ctr : Int} {ts : TState} (hr : TReachable cfg ctr ts) :
